@@ -749,7 +749,22 @@ class Executor:
         ng = z3.Function('fp_' + name + '_neg', z3.RealSort(), z3.RealSort(), z3.BoolSort())
         return VFloat(False, inf, r, ng(a.val, b.val))
 
+    def _repo_dunder(self, v: Val, name: str):
+        """the unary special method `name` of the value's class when that class (a subclass of a builtin number defined in the
+        repository) overrides it: it is inlined from its source instead of being modelled as the builtin operation"""
+        import inspect as _insp
+        cls = getattr(v, 'pycls', None)
+        if isinstance(cls, type) and isinstance(v, (VInt, VFloat, VDec)):
+            f = _insp.getattr_static(cls, name, None)
+            if f is not None and hasattr(f, '__code__') and f.__code__.co_filename.startswith(_extract.REPO_ROOT + '/') \
+                    and not getattr(self, '_in_dunder', None) == (id(v), name):
+                return f
+        return None
+
     def neg(self, v: Val) -> Val:
+        f = self._repo_dunder(v, '__neg__')
+        if f is not None:
+            return self.inline_real(f, [v], {})
         if isinstance(v, (VInt, VBool)):
             return VInt(-as_int_term(v))
         if isinstance(v, VDec):
@@ -766,6 +781,9 @@ class Executor:
         raise OutOfSubset(f'unary - on {v!r}')
 
     def pos_(self, v: Val) -> Val:
+        f = self._repo_dunder(v, '__pos__')
+        if f is not None:
+            return self.inline_real(f, [v], {})
         if isinstance(v, VBool):
             return VInt(bool2int(v.t))
         if isinstance(v, (VInt, VDec, VFloat)):
@@ -775,6 +793,9 @@ class Executor:
         raise OutOfSubset(f'unary + on {v!r}')
 
     def abs_(self, v: Val) -> Val:
+        f = self._repo_dunder(v, '__abs__')
+        if f is not None:
+            return self.inline_real(f, [v], {})
         if isinstance(v, (VInt, VBool)):
             t = as_int_term(v)
             return VInt(z3.If(t >= 0, t, -t))
